@@ -605,3 +605,36 @@ func (db *DB) SetRevoked(id string, created int64) bool {
 	}
 	return false
 }
+
+// SetRecord replaces the key_record text of row (id, created) - storage-level corruption for hostile-input checks -
+// and returns a function that restores it. ok is false when there is no such row.
+func (db *DB) SetRecord(id string, created int64, record string) (restore func(), ok bool) {
+	db.mu.Lock()
+	defer db.mu.Unlock()
+	for _, i := range db.byID[id] {
+		if db.rows[i].created.Unix() != created {
+			continue
+		}
+		i := i
+		orig := db.rows[i].record
+		db.rows[i].record = record
+		return func() {
+			db.mu.Lock()
+			db.rows[i].record = orig
+			db.mu.Unlock()
+		}, true
+	}
+	return nil, false
+}
+
+// Record returns the key_record text of row (id, created).
+func (db *DB) Record(id string, created int64) (string, bool) {
+	db.mu.Lock()
+	defer db.mu.Unlock()
+	for _, i := range db.byID[id] {
+		if db.rows[i].created.Unix() == created {
+			return db.rows[i].record, true
+		}
+	}
+	return "", false
+}
